@@ -1599,3 +1599,30 @@ CONTROLS['C17'] += [
       "    agg_uuids_to_add = provided_aggregates - set(existing_aggregates.values())\n",
       "    known = set(existing_aggregates.values())\n    agg_uuids_to_add = provided_aggregates - known\n"),
 ]
+
+
+def B2(id, edits):
+    return {'id': id, 'edits': [{'file': f, 'old': o, 'new': n}
+                                for f, o, n in edits], 'benign': True}
+
+
+_SCH = ['ALLOCATION_SCHEMA', 'ALLOCATION_SCHEMA_V1_8', 'ALLOCATION_SCHEMA_V1_12',
+        'ALLOCATION_SCHEMA_V1_28', 'ALLOCATION_SCHEMA_V1_34', 'ALLOCATION_SCHEMA_V1_38']
+_DROP = (HA, "    context = req.environ['placement.context']\n    context.can(policies.ALLOC_UPDATE)\n    consumer_uuid = util.wsgi_path_item(req.environ, 'consumer_uuid')\n    if not uuidutils.is_uuid_like(consumer_uuid):",
+         "    context = req.environ['placement.context']\n    consumer_uuid = util.wsgi_path_item(req.environ, 'consumer_uuid')\n    if not uuidutils.is_uuid_like(consumer_uuid):")
+
+
+def _wrap(x):
+    return (HA, "    return _set_allocations_for_consumer(req, schema.%s)\n" % x,
+            "    req.environ['placement.context'].can(policies.ALLOC_UPDATE)\n"
+            "    return _set_allocations_for_consumer(req, schema.%s)\n" % x)
+
+
+CONTROLS['C16'] += [
+    B2('c16-benign-can-moved-to-wrappers', [_DROP] + [_wrap(x) for x in _SCH]),
+    M2('c16-seed-can-moved-one-wrapper-forgotten',
+       [_DROP] + [_wrap(x) for x in _SCH if x != 'ALLOCATION_SCHEMA_V1_12'], 'R16.1'),
+]
+for _p in ('C02', 'C14', 'C15', 'C04', 'C05', 'C12'):
+    CONTROLS[_p] += [B2('%s-benign-can-moved-to-wrappers' % _p.lower(),
+                        [_DROP] + [_wrap(x) for x in _SCH])]
